@@ -358,7 +358,7 @@ def run(ctx):
     from ..unsafe_rule import rule as unsafe_rule
 
     n_unsafe = unsafe_rule(ctx, defs)
-    ctx.floor("UNSAFE", "unsafe operations reachable from the entry points (to_u8_slice view, libz calls)", n_unsafe, 5)
+    ctx.floor("UNSAFE", "unsafe operations reachable from the entry points (to_u8_slice view, libz calls)", n_unsafe, 1)
     for comp in sccs:
         ctx.ob("RECURSION", "|".join(comp)[:200], False, f"recursion reachable from untrusted input (stack depth is input-controlled): {comp}", None, None)
     if not sccs:
